@@ -641,14 +641,16 @@ func (in *Interp) parseDecimal(fr *frame, s Str, signed bool, bitSize int, fname
 	}
 	acc := ts.BV(64, 0)
 	over := ts.False
-	for _, d := range ds {
+	for i, d := range ds {
 		dv := ts.ZExt(ts.Bin(OSub, d, ts.BV(8, '0')), 64)
-		// overflow of acc*10 + dv beyond MaxUint64
-		o1 := ts.Cmp(OUlt, ts.BV(64, math.MaxUint64/10), acc) // acc > max/10
 		m := ts.Bin(OMul, acc, ts.BV(64, 10))
 		nacc := ts.Bin(OAdd, m, dv)
-		o2 := ts.Cmp(OUlt, nacc, m) // wrapped on add
-		over = ts.OrN(over, o1, o2)
+		if i >= 19 {
+			// only a 20th digit can push the value past 2^64 (10^19 < 2^64 < 10^20)
+			o1 := ts.Cmp(OUlt, ts.BV(64, math.MaxUint64/10), acc) // acc > max/10
+			o2 := ts.Cmp(OUlt, nacc, m)                           // wrapped on add
+			over = ts.OrN(over, o1, o2)
+		}
 		acc = nacc
 	}
 	over = ts.Or(over, ts.Cmp(OUlt, ts.BV(64, limit), acc))
